@@ -34,6 +34,19 @@ Km == 1000
 Opt(c, f) == IF c THEN f ELSE <<>>
 
 (***************************************************************************)
+(* Environment.  A behaviour of any module in this directory is a sequence *)
+(* of steps against the worlds it names.  The process it runs in is not    *)
+(* its own: other worlds may have been built before, may be alive, and may *)
+(* be asked anything between two of its steps,                             *)
+(*     Interfere == \E w \in OtherLiveWorlds, q \in Queries : Ask(w, q)     *)
+(* and Interfere leaves every variable of every specification unchanged -- *)
+(* no expectation of any behaviour mentions it.  The harness implements    *)
+(* the action for all modules at once (--interfere: the most recently      *)
+(* built documents stay alive as decoy worlds and one of them is asked the *)
+(* same question right before every query).                                *)
+(***************************************************************************)
+
+(***************************************************************************)
 (* Query interface: a property request is <<kind, c, n>>                   *)
 (*   1 temperature, 2 composition c, 3 grains of composition c with n      *)
 (*   grains, 4 tag, 5 velocity                                             *)
